@@ -30,6 +30,8 @@ def lift(x, want=None):
     if isinstance(x, Sym):
         if x.is_q:
             return TE("S", ("q", x.qv))
+        if x.t[0] == "sqrt" and x.t[1].is_q and x.t[1].qv == 2:
+            return TE("S", ("name", "r2"))
         raise Refuse("untyped symbolic scalar in a typed formula")
     if isinstance(x, (int, Fraction)) and not isinstance(x, bool):
         return TE("S", ("q", Fraction(x)))
@@ -54,6 +56,12 @@ def mul(a, b):
     if a.kind == "S" and b.kind == "S":
         if a.t[0] == "q" and b.t[0] == "q":
             return TE("S", ("q", a.t[1] * b.t[1]))
+        if is_zero_q(a) or is_zero_q(b):
+            return TE("S", ("q", Fraction(0)))
+        if a.t[0] == "q" and a.t[1] == 1:
+            return b
+        if b.t[0] == "q" and b.t[1] == 1:
+            return a
         return TE("S", ("mul", a, b))
     if a.kind == "S":
         return TE(b.kind, ("smul", a, b))
